@@ -129,3 +129,84 @@ func runW2Model(r *Result, dp *DriverPool, cs w2Case) bool {
 	}
 	return true
 }
+
+// runW2Auto: the Lean model of the whole LZMA2 writer with its own HashTable4 model (hash chains, rolling hash,
+// ring-level selection) computes the stream from the call history alone; it must equal the real writer's output
+// with the default match finder, call by call and byte for byte.
+func runW2Auto(r *Result, dp *DriverPool, cs w2Case) {
+	if cs.Matcher != 0 || cs.DictCap > 8192 {
+		return // the Lean state is copied once per proposal (immutable arrays): small dictionaries only
+	}
+	tot := 0
+	for _, op := range cs.Hist {
+		if op.Kind == "write" {
+			tot += len(cs.data(op))
+		}
+	}
+	if tot > 40000 {
+		return
+	}
+	var buf bytes.Buffer
+	w, err := cs.config().NewWriter2(&buf)
+	if err != nil {
+		return
+	}
+	var goCalls, calls []string
+	total := 0
+	for _, op := range cs.Hist {
+		var res callRes
+		switch op.Kind {
+		case "write":
+			p := cs.data(op)
+			total += len(p)
+			res = guard(func() (int, error) { return w.Write(p) })
+			calls = append(calls, "W"+hxe(p))
+		case "flush":
+			res = guard(func() (int, error) { return 0, w.Flush() })
+			calls = append(calls, "F")
+		case "close":
+			res = guard(func() (int, error) { return 0, w.Close() })
+			calls = append(calls, "C")
+		}
+		goCalls = append(goCalls, fmt.Sprintf("%d:%s@%d", res.N, w2ErrName(res), buf.Len()))
+		if res.Err != "nil" && w2ErrName(res) != "closed" {
+			break
+		}
+	}
+	rep, err := dp.Ask(fmt.Sprintf("w2auto %d %d %d %s", (cs.PB*5+cs.LP)*9+cs.LC, cs.DictCap, cs.BufSize, strings.Join(calls, " ")))
+	if err != nil {
+		r.Violate("broken-correspondence", "driver", cs, err.Error())
+		return
+	}
+	parts := strings.Split(rep, " | ")
+	if len(parts) < 3 {
+		r.Violate("broken-correspondence", "writer2-auto: bad driver reply", cs, truncate(rep, 200))
+		return
+	}
+	r.mu.Lock()
+	r.TracesVsImpl++
+	r.mu.Unlock()
+	r.Inc("writer2_auto_histories")
+	r.Add("writer2_auto_bytes", total)
+	mCalls := strings.Fields(parts[0])
+	for i := range goCalls {
+		if i >= len(mCalls) || mCalls[i] != goCalls[i] {
+			got := "<none>"
+			if i < len(mCalls) {
+				got = mCalls[i]
+			}
+			r.Violate("broken-correspondence", "writer2-auto call result (Lean HashTable4 model)", cs,
+				fmt.Sprintf("call %d: real Writer2 (HashTable4) returned %s, the Lean model computing its own proposals says %s", i, goCalls[i], got))
+			return
+		}
+	}
+	if parts[1] != hxe(buf.Bytes()) {
+		m := unhxe(parts[1])
+		pos := 0
+		for pos < len(m) && pos < buf.Len() && m[pos] == buf.Bytes()[pos] {
+			pos++
+		}
+		r.Violate("broken-correspondence", "writer2-auto sink bytes (Lean HashTable4 model)", cs,
+			fmt.Sprintf("the Lean model of Writer2 with its own HashTable4 model produces different bytes (first difference at %d of %d; model %d bytes)", pos, buf.Len(), len(m)))
+	}
+}
